@@ -21,6 +21,8 @@ pub enum Content {
     Kernel,
     /// the generated file reached through a symbolic link
     Linked(Box<Content>),
+    /// the generated file named by a path relative to the process's working directory
+    Relative(Box<Content>),
 }
 
 pub const KERNEL_SOURCE: &str = "/proc/sys/kernel/ostype";
@@ -44,7 +46,7 @@ impl Content {
             }
             Content::Text(n) => b"the quick brown fox jumps over the lazy dog\n".iter().cycle().take(*n).copied().collect(),
             Content::Kernel => std::fs::read(KERNEL_SOURCE).unwrap_or_else(|e| crate::ctx::machinery(&format!("{}: {}", KERNEL_SOURCE, e))),
-            Content::Linked(c) => c.materialize(),
+            Content::Linked(c) | Content::Relative(c) => c.materialize(),
         }
     }
     /// false if the source's modification time is not under the harness's control
@@ -56,7 +58,7 @@ impl Content {
             Content::Bytes(b) => b.len(),
             Content::Noise(n) | Content::Text(n) => *n,
             Content::Kernel => self.materialize().len(),
-            Content::Linked(c) => c.len(),
+            Content::Linked(c) | Content::Relative(c) => c.len(),
         }
     }
     pub fn to_json(&self) -> Value {
@@ -67,6 +69,7 @@ impl Content {
             Content::Text(n) => json!({"text": n}),
             Content::Kernel => json!({"kernel_file": KERNEL_SOURCE}),
             Content::Linked(c) => json!({"through_symlink": c.to_json()}),
+            Content::Relative(c) => json!({"relative_source_path": c.to_json()}),
         }
     }
 }
@@ -499,6 +502,16 @@ impl Env {
         use std::os::unix::fs::PermissionsExt;
         if let Content::Kernel = c {
             return PathBuf::from(KERNEL_SOURCE);
+        }
+        if let Content::Relative(inner) = c {
+            let real = self.source(inner, perms, mtime);
+            let cwd = std::env::current_dir().unwrap_or_else(|_| PathBuf::from("/"));
+            let mut rel = PathBuf::new();
+            for _ in cwd.components().filter(|x| matches!(x, std::path::Component::Normal(_))) {
+                rel.push("..");
+            }
+            rel.push(real.strip_prefix("/").unwrap_or(&real));
+            return rel;
         }
         if let Content::Linked(inner) = c {
             let real = self.source(inner, perms, mtime);
